@@ -1,7 +1,7 @@
 (* C13 — the zero-copy decoder agrees with the owned decoder.
    The two parser families are one set of per-tag parsers dispatched through two generated arm tables
    (Gen/DecoderArms.v, regenerated from decoder.rs on every run). *)
-From EDP Require Import Base.Bytes Term.Term Gen.Tags Gen.DecoderArms Codec.Decode Codec.DecodeFacts.
+From EDP Require Import Base.Bytes Term.Term Gen.Tags Gen.DecoderArms Codec.Decode Codec.DecodeFacts Codec.OffsetFacts.
 
 (* every arm of the zero-copy table is an arm of the owned table with the same parser: checked by computation
    on the tables extracted from the current source *)
@@ -40,6 +40,18 @@ Theorem C13_modern_restriction_sound : forall cfg f bs t r,
 Proof.
   intros cfg f. apply parse_arms_mono. apply arms_subb_sound. vm_compute. reflexivity.
 Qed.
+
+(* "when it rejects an input, the byte offset it reports lies within the input": the zero-copy decoder reports
+   original_len - input.len() for the term it entered last; no arm of its table ever enters a nested term on an input
+   longer than the original (parse_off is the parser with that check made explicit: it is the parser), so the
+   subtraction stays within 0..original_len — for every input, whatever the arm table holds short of the compressed arm *)
+Theorem C13_offsets_within_input : forall cfg L f bs, (length bs <= L)%nat ->
+  parse_off (with_arms cfg borrowed_arms) L f bs = parse (with_arms cfg borrowed_arms) f bs.
+Proof. intros cfg. exact (offsets_never_underflow (with_arms cfg borrowed_arms) borrowed_arms_no_compressed). Qed.
+
+(* what is left after a term is a suffix no longer than the input: the offset reported with TrailingData is within it too *)
+Theorem C13_trailing_offset_within_input : forall cfg f bs t r, parse cfg f bs = POk t r -> (length r < length bs)%nat.
+Proof. intros cfg f bs t r. exact (parse_consumes cfg f bs t r). Qed.
 
 Check C13_borrowed_implies_owned : forall cfg f bs t r,
   parse (with_arms cfg borrowed_arms) f bs = POk t r -> parse (with_arms cfg owned_arms) f bs = POk t r.
